@@ -313,7 +313,7 @@ func CheckC11(p *Pkg, e *Env, r *res.Result) {
 					f := res.Failure{Property: "C11", Kind: secKind(p, op, creds, installed, admitted, ran, pan != ""), Clause: "security",
 						Detail: fmt.Sprintf("%s effective requirement %v, global %v, schemes %v, credentials {%s}, installed %v: %s", op, p.Doc.EffectiveSecurity(op.Spec), p.Doc.Security, schemeKinds(p.Doc), credString(creds), installed, fail),
 						Replay: p.SpecReplay(map[string]any{"request.txt": op.Method + " " + req.URL.String() + "\n" + fmt.Sprint(req.Header)})}
-					if !FailOrKnown(e, r, f) {
+					if !FailOrKnown(p, e, r, f) {
 						return
 					}
 				}
@@ -450,7 +450,7 @@ func CheckC16(p *Pkg, e *Env, r *res.Result) {
 			f := res.Failure{Property: "C16", Kind: "trace:" + class, Clause: "middleware-trace",
 				Detail: fmt.Sprintf("stack length %d, %s request %s %s: %s", k, class, req.Method, req.URL.Path, fail),
 				Replay: p.SpecReplay(map[string]any{"request.txt": req.Method + " " + req.URL.String()})}
-			return FailOrKnown(e, r, f)
+			return FailOrKnown(p, e, r, f)
 		}
 		return true
 	}
@@ -632,7 +632,7 @@ func CheckC17(p *Pkg, e *Env, r *res.Result) {
 				f := res.Failure{Property: "C17", Kind: "cors:" + state, Clause: "cors",
 					Detail: fmt.Sprintf("path %s (cors=%v, handler set=%v, own OPTIONS=%v) expected methods %v headers %v: %s", tpl, p.Cfg.Cors, handlerSet, ownOptions, wantM, wantH, fail),
 					Replay: p.SpecReplay(map[string]any{"request.txt": "OPTIONS " + path})}
-				if !FailOrKnown(e, r, f) {
+				if !FailOrKnown(p, e, r, f) {
 					return
 				}
 			} else if state == "preflight" {
